@@ -7,6 +7,7 @@ import (
 	"io"
 	"net/http"
 	"net/url"
+	"strings"
 	"sync"
 
 	"github.com/google/pprof/internal/plugin"
@@ -180,31 +181,57 @@ var vC10Queries = []string{
 	"g=filefunctions",
 	"th=k",
 	"ts=bytes",
+	"si=nosuchtype",
+	"f=nomatch",
 }
 
-func vC10Request(ui *webInterface, q string, edit func(*config)) ([]vItem, bool) {
+// vRespWriter is the http.ResponseWriter of a request (transport is outside the claim).
+type vRespWriter struct {
+	h    http.Header
+	code int
+}
+
+func (w *vRespWriter) Header() http.Header {
+	if w.h == nil {
+		w.h = http.Header{}
+	}
+	return w.h
+}
+func (w *vRespWriter) Write(b []byte) (int, error) { return len(b), nil }
+func (w *vRespWriter) WriteHeader(code int)        { w.code = code }
+
+// vC10Request serves one request; the result is the structured report plus
+// the warnings shown on the page (makeReport's second result).
+func vC10Request(ui *webInterface, q string, edit func(*config)) ([]vItem, string, bool) {
 	u, err := url.Parse("http://localhost/top?" + q)
 	if err != nil {
-		return nil, false
+		return nil, "", false
 	}
-	rpt, _ := ui.makeReport(nil, &http.Request{URL: u}, []string{"top"}, edit)
+	rpt, errs := ui.makeReport(&vRespWriter{}, &http.Request{URL: u}, []string{"top"}, edit)
 	if rpt == nil {
-		return nil, false
+		return nil, "", false
 	}
 	items, _ := report.TextItems(rpt)
 	var out []vItem
 	for _, it := range items {
 		out = append(out, vItem{it.Name, it.Flat, it.Cum})
 	}
-	return out, true
+	return out, strings.Join(errs, "\n"), true
 }
 
 // VerifC10Web: a web request's report depends on its own URL only, never on
 // the requests served before; requests leave the persistent options alone.
 func VerifC10Web() {
 	p := vC10Profile()
+	// a numeric tag with two units: every report warns about it
+	p.Sample[0].NumLabel = map[string][]int64{"bytes": {8}}
+	p.Sample[0].NumUnit = map[string][]string{"bytes": {"kilobytes"}}
 	copier := makeProfileCopier(p)
-	ui := &webInterface{prof: p, copier: copier, options: &plugin.Options{UI: &vNullUI{}}}
+	ui, uerr := makeWebInterface(p, copier, &plugin.Options{UI: &vNullUI{}})
+	if uerr != nil {
+		vAssert(false, "C10.web.setup: makeWebInterface failed")
+		return
+	}
 	nq := vBound("c10.queries", len(vC10Queries))
 	a := vC10Queries[vChoice("queryA", nq)]
 	b := vC10Queries[vChoice("queryB", nq)]
@@ -215,15 +242,16 @@ func VerifC10Web() {
 	before := currentConfig()
 	vFreeze(p, "loaded-profile")
 	pristine := vSer(copier.newCopy())
-	first, ok1 := vC10Request(ui, a, nil)
-	_, _ = vC10Request(ui, b, editB)
-	again, ok2 := vC10Request(ui, a, nil)
+	first, warn1, ok1 := vC10Request(ui, a, nil)
+	_, _, _ = vC10Request(ui, b, editB)
+	again, warn2, ok2 := vC10Request(ui, a, nil)
 	vUnfreeze()
 	vAssert(vStrEq(vSer(copier.newCopy()), pristine), "C10.web.copy: a copy handed out after the requests differs from one handed out before them")
 	vReach("C10.web:done")
-	vAssert(ok1 && ok2, "C10.web.outcome: a valid request failed")
+	vAssert(ok1 == ok2, "C10.web.outcome: the same request succeeds or fails depending on what was served before")
 	if ok1 && ok2 {
 		vAssert(vSameItems(first, again), "C10.web.result: the same request gives a different report after another request was served")
+		vAssert(vStrEq(warn1, warn2), "C10.web.warnings: the warnings shown for a request depend on the requests served before")
 		vObserve(len(first))
 	}
 	vAssert(currentConfig() == before, "C10.web.options: serving a request changed the persistent options")
